@@ -1099,11 +1099,13 @@ def coqchk_part(ctx: vlib.Ctx):
 
 
 def run(ctx: vlib.Ctx):
-    ctx.coverage["rule"] = ("random class tables + root types over the supported grammar (scalars, 19 stdlib leaves, 5 enum bases, Literal, "
-                            "List/Sequence/Deque/Set/FrozenSet/Tuple var+fixed+Unpack (nested), Dict/Mapping/OrderedDict/DefaultDict/Counter/"
-                            "ChainMap, Optional/Union/NewType, dataclasses with aliases/defaults/factories/generic/same __name__, NamedTuple, "
-                            "TypedDict total/Required/NotRequired), several conforming values each, validated under 2 dialects x all_refs; "
-                            "distinct = distinct (root type, table size); 30% of the cases probe the known-finding inputs")
+    ctx.coverage["rule"] = ("random class tables + root types over the supported grammar (scalars, 19 stdlib leaves, 5 enum bases, Literal lists "
+                            "with ==-equal members, List/Sequence/Deque/Set/FrozenSet/Tuple var+fixed+Unpack (nested), Dict/Mapping/OrderedDict/"
+                            "DefaultDict/Counter/ChainMap, Optional/Union/NewType/Final, dataclasses with three alias sources, defaults/factories, "
+                            "init=False, generic specialisations, same __name__, class options omit_none / namedtuple_as_dict (Config or dialect), "
+                            "field serialize overrides (as_list/as_dict, function with return annotation, pass_through), NamedTuple, TypedDict "
+                            "total/Required/NotRequired), several conforming values each, validated under 2 dialects x all_refs; distinct = distinct "
+                            "(root type, table size); 30% of the cases probe the known-finding inputs")
     ctx.assumptions += [
         "conforming value: exact scalar classes (bool is not offered at int positions), ints are offered at float positions, floats are finite "
         "(JSON cannot carry nan/inf)",
